@@ -62,6 +62,15 @@ var registry []*Rule
 
 // Register adds a rule.
 func Register(r *Rule) {
+	if drop := dropProps[r.ID]; len(drop) > 0 {
+		var keep []string
+		for _, p := range r.Props {
+			if !hasProp(drop, p) {
+				keep = append(keep, p)
+			}
+		}
+		r.Props = keep
+	}
 	for _, p := range extraProps[r.ID] {
 		if !hasProp(r.Props, p) {
 			r.Props = append(r.Props, p)
